@@ -186,6 +186,60 @@ def _cb_chunk(chunk, prop):
     return res
 
 
+CL_BADKIND = "ensures an add refused for its kind (ANY_KIND / not a str) leaves the typed tree unchanged and well-formed (wf(T): indexes incl.)"
+
+
+def _badkind_chunk(chunk, prop):
+    """Typed trees: add / prepend / append / sibling-insert with a kind the constructor refuses -- nothing may stay behind
+    (a node registered in the indexes but attached nowhere)."""
+    from nutree.typed_tree import ANY_KIND
+
+    res = Result(prop)
+    for spec in chunk:
+        for i in range(-1, len(spec.nodes)):
+            for bad_name, bad in (("ANY_KIND", ANY_KIND), ("int", 123), ("None", None)):
+                for opname in ("add", "add(known data)", "prepend_child", "append_sibling"):
+                    if opname == "append_sibling" and i == -1:
+                        continue
+                    tree, nodes = gen.build(spec)
+                    tgt = tree if i == -1 else nodes[i]
+                    before = view.obs(tree)
+                    wit = {"kind": "badkind", "spec": mut._spec_json(spec), "op": opname, "k": bad_name, "node": i}
+                    try:
+                        if opname == "add":
+                            tgt.add("fresh", kind=bad)
+                        elif opname == "add(known data)":
+                            tgt.add("a", kind=bad)
+                        elif opname == "prepend_child":
+                            tgt.prepend_child("fresh", kind=bad)
+                        else:
+                            tgt.append_sibling("fresh", kind=bad)
+                        raised = False
+                    except Exception:  # noqa: BLE001
+                        raised = True
+                    res.add_case(f"{spec.short()} badkind {opname} {bad_name} @{i}", nontrivial=True)
+                    if not raised:
+                        if bad is None:
+                            continue  # kind=None may be accepted as 'default kind' by the shortcuts: then it is an ordinary add
+                        res.violations.append(Violation(prop, CL_BADKIND, "TypedNode.add_child", wit, f"{opname}(kind={bad_name}) was accepted"))
+                        continue
+                    try:
+                        wfv = view.wf_violations(tree)[:2]
+                    except Exception as e:  # noqa: BLE001  (e.g. the repr of a half-built node that stayed in an index)
+                        wfv = [f"the well-formedness scan itself failed on what the tree holds now: {type(e).__name__}: {e}"]
+                    for v in wfv:
+                        res.violations.append(Violation(prop, CL_BADKIND, "TypedNode.add_child", wit, clip(f"after the refused {opname}(kind={bad_name}): {v}")))
+                    if view.obs(tree) != before:
+                        res.violations.append(Violation(prop, CL_BADKIND, "TypedNode.add_child", wit, clip(f"after the refused {opname}(kind={bad_name}) the tree changed: {view.fmt(tree)}")))
+    return res
+
+
+def badkind(prop, tier):
+    r = parallel(_badkind_chunk, list(gen.typed_specs(2 if tier == "quick" else 3, min_n=0)), prop, prop=prop)
+    r.bounds["typed adds refused for their kind"] = f"typed trees with <= {2 if tier == 'quick' else 3} nodes x every target x add / add(known data) / prepend_child / append_sibling x kind in {{ANY_KIND, 123, None}}"
+    return r
+
+
 CL_RO_DEEP = "ensures a read-only operation leaves the tree unchanged (structure, ids, meta and the contents of the data objects)"
 
 
@@ -245,6 +299,7 @@ def run(prop, tier, only=None):
     n = 3 if tier == "quick" else 4
     specs = list(gen.plain_specs(n, min_n=1))
     total.merge(parallel(_cb_chunk, specs, prop, prop=prop))
+    total.merge(badkind(prop, tier))
     total.bounds["callback raises at its k-th invocation"] = f"all plain forests with 1..{n} nodes x every operation taking a callback x every k in 1..n+1; calc_data_id raising at k in 1..3; a node factory of the target tree refusing the k-th node (every k) while a branch / the whole tree is copied in (add(node, deep), copy_to(deep), add(tree), Tree.copy_to)"
     return total
 
@@ -254,6 +309,9 @@ def replay(witness, prop):
     if k in ("op", "history"):
         return mut.replay(witness, prop)
     spec = mut.spec_from_json(witness["spec"])
+    if k == "badkind":
+        r = _badkind_chunk([spec], prop)
+        return [(v.clause, v.text) for v in r.violations if all(v.witness.get(q) == witness.get(q) for q in ("op", "k", "node"))]
     if k == "ro":
         r = _ro_chunk([(witness["family"], spec)], prop)
         return [(v.clause, v.text) for v in r.violations if v.witness.get("op") == witness.get("op")]
